@@ -17,17 +17,29 @@ def dominating_edges(fn, target_block):
             continue
         succ = b.succ
         if b.labels is not None:
-            for i, s in enumerate(succ):
-                if s is None:
+            # switch: the target holds under the disjunction of the labels
+            # whose successor can reach it, provided the switch dominates the
+            # target and at least one other label cannot reach it
+            if not fn.block_dominates(b.id, target_block) or b.id == target_block:
+                continue
+            reach_labs, other = [], 0
+            for i, s_ in enumerate(succ):
+                if s_ is None:
                     continue
                 lab = b.labels[i] if i < len(b.labels) else None
-                if fn.edge_dominates((b.id, s), target_block):
-                    if isinstance(lab, dict):
-                        out.append((b, ("case", lab.get("case"), lab.get("hi")), b.cond))
-                    else:
-                        # default / fall-out edge: none of the cases matched
-                        cases = [l.get("case") for l in b.labels if isinstance(l, dict)]
-                        out.append((b, ("default", cases), b.cond))
+                if target_block == s_ or target_block in fn.reachable(start=s_, removed_blocks={b.id}):
+                    reach_labs.append(lab)
+                else:
+                    other += 1
+            if not reach_labs or not other:
+                continue
+            cases_all = [l.get("case") for l in b.labels if isinstance(l, dict)]
+            if all(isinstance(l, dict) for l in reach_labs):
+                vals = tuple(l.get("case") for l in reach_labs)
+                for v in vals:
+                    out.append((b, ("case", v, None, vals), b.cond))
+            else:
+                out.append((b, ("default", cases_all), b.cond))
             continue
         if len(succ) != 2:
             continue
